@@ -32,7 +32,7 @@ ASSUMPTIONS = ["the chunk's letters are the chromosome's letters of the window (
                "names, ids and qualifiers are absent (they are chunk independent constructor arguments: C08)",
                "sequence letters ACGTN", "translate() with its defaults (DEFAULT table, strict)"]
 MODEL_OPS = None
-CODON_OPS = ("ccodons", "kcodons", "cdsseq", "prot", "kframes")
+CODON_OPS = ("ccodons", "kcodons", "kwcodons", "cdsseq", "prot", "kframes")
 
 
 def impl(line):
@@ -178,6 +178,13 @@ def tx_around(rng, st, exons, fv, utr=(0, 1, 2)):
 
 def coding_ops(run, seq, ws, we, wst, d, full):
     yield line("kcodons", seq, ws, we, wst, d)
+    if full or run.rng.random() < 0.35:
+        # a codon window on top of the chunk: aimed at the CDS span, start < end, inside the chromosome
+        _, ex = cds_of(d)
+        lo = run.rng.randint(max(0, ex[0][0] - 1), min(len(seq) - 1, ex[-1][1]))
+        hi = run.rng.randint(lo + 1, min(len(seq), max(lo + 1, ex[-1][1] + 1)))
+        run.count("codon-window-on-chunk")
+        yield line("kwcodons", seq, ws, we, wst, d) + f" {lo} {hi}"
     if full or run.rng.random() < 0.25:
         yield line("ccodons", seq, ws, we, wst, d)
     if full or run.rng.random() < 0.3:
